@@ -167,7 +167,12 @@ def run(run):
         impl = core.run_isolated(exe, reqs, mem_bytes=2 << 30, timeout_total=1200)
         if profile == "debug":
             model = core.run_driver(reqs, timeout=1200)
+        n0 = len(run.corr_disagreements)
         run.correspond(reqs, impl, model, None, f"malformed-stream[{profile}]")
+        if len(run.corr_disagreements) == n0:
+            # the same calls again in another order, with duplicates (a rejected call repeated must be rejected again) and
+            # rejected calls of the same family in between: no call may leave a trace that changes a later answer
+            core.reordered_pass(run, exe, reqs, model, None, f"malformed-stream[{profile}]", True, 900)
         for q, a in zip(reqs, impl):
             run.evaluations += 1
             msg = oracle(q, a)
@@ -190,6 +195,6 @@ def run(run):
     run.rule = ("corpus of the repaired crash inputs first, then a malformed stream over all 13 public functions: random u64, canonical ids with stray low bits, marker-only patterns with any top six bits, "
                 "top bits 60..63, aliases of the world cell, single-bit flips x i32 resolutions (small, boundary 29/30/31, extremes) x finite coordinates incl. 1e300 and sub-normals; "
                 "each line run in BOTH an overflow-checked debug build and a release build of the harness with a 2 GiB address-space limit (crash or hang = lost line, reported); "
-                "calls whose honest result exceeds 4^8 cells are steered back into scope; non-trivial = distinct requests that did not simply succeed")
+                "calls whose honest result exceeds 4^8 cells are steered back into scope; a sample of the stream is run again in shuffled order with immediate duplicates and rejected calls in between (answers must equal the pure model's); non-trivial = distinct requests that did not simply succeed")
     run.samples = [{"request": q[:200], "impl": a[:120]} for q, a in list(zip(reqs, impl))[:4]] + [{"request": reqs[i][:200], "impl": impl[i][:120]} for i in rng.sample(range(len(reqs)), 4)]
     run.extra["outcome_distribution"] = dict(sorted(outcomes.items()))
